@@ -95,8 +95,10 @@ func c19FreePort() (int, error) {
 	return ln.Addr().(*net.TCPAddr).Port, nil
 }
 
-// c19ChildOf finds the process started by strace (its only direct child).
-func c19ChildOf(ppid int) int {
+// c19ChildOf finds the child of strace that executes exe.  (strace also forks
+// short-lived children of its own to probe ptrace features; those, and the
+// tracee before its execve, do not have exe as their executable.)
+func c19ChildOf(ppid int, exe string) int {
 	ents, err := os.ReadDir("/proc")
 	if err != nil {
 		return 0
@@ -119,7 +121,9 @@ func c19ChildOf(ppid int) int {
 		f := strings.Fields(s[i+1:])
 		if len(f) >= 2 {
 			if pp, _ := strconv.Atoi(f[1]); pp == ppid {
-				return pid
+				if l, err := os.Readlink(filepath.Join("/proc", e.Name(), "exe")); err == nil && l == exe {
+					return pid
+				}
 			}
 		}
 	}
@@ -248,6 +252,9 @@ func TestVerifC19Binary(t *testing.T) {
 		rep.Inconc(fmt.Sprintf("cannot build the liftbridge binary: %v: %s", err, c19Tail(string(out), 600)))
 		return
 	}
+	if real, err := filepath.EvalSymlinks(bin); err == nil {
+		bin = real // /proc/<pid>/exe shows the resolved path
+	}
 	strace, err := exec.LookPath("strace")
 	if err == nil {
 		probe := filepath.Join(dir, "probe.trace")
@@ -269,7 +276,7 @@ func TestVerifC19Binary(t *testing.T) {
 		{"off-env-no-config-file", "env-var:no-config-file", "zero", true},
 		{"off-config-file-noproxy", "config-file", "zero", false},
 	}
-	rounds := kit.Scale(2, 8)
+	rounds := kit.Scale(2, 20)
 	base := kit.Mix(kit.Seed(), 0xC19B)
 	type result struct {
 		cs       c19BinCase
@@ -343,115 +350,143 @@ func TestVerifC19Binary(t *testing.T) {
 		}
 		replay["args"] = args
 		replay["env"] = env
-		trace := filepath.Join(cdir, "trace.txt")
-		outf, _ := os.Create(filepath.Join(cdir, "out.txt"))
-		defer outf.Close()
-		cmd := exec.Command(strace, append([]string{"-f", "-e", "trace=connect", "-o", trace, bin}, args...)...)
-		cmd.Env = c19CleanEnv(env...)
-		cmd.Dir = cdir
-		cmd.Stdout, cmd.Stderr = outf, outf
-		cmd.SysProcAttr = &syscall.SysProcAttr{Setpgid: true}
-		if err := cmd.Start(); err != nil {
-			rep.Inconc("cannot start strace: " + err.Error())
-			return
-		}
-		waitCh := make(chan error, 1)
-		go func() { waitCh <- cmd.Wait() }()
-		kill := func() {
-			syscall.Kill(-cmd.Process.Pid, syscall.SIGKILL)
-			<-waitCh
-		}
-		exited := func() bool {
-			select {
-			case err := <-waitCh:
-				waitCh <- err
-				return true
-			default:
-				return false
-			}
-		}
-		tail := func() string {
-			b, _ := os.ReadFile(filepath.Join(cdir, "out.txt"))
-			return c19Tail(string(b), 500)
-		}
-		var tracee int
-		if !vfWait(20*time.Second, func() bool { tracee = c19ChildOf(cmd.Process.Pid); return tracee != 0 || exited() }) || tracee == 0 {
-			rep.Inconc(cs.Name + ": traced process not found: " + tail())
-			kill()
-			return
-		}
-		// wait until the binary serves gRPC, then use it
-		addr := fmt.Sprintf("127.0.0.1:%d", port)
-		conn, err := grpc.NewClient(addr, grpc.WithTransportCredentials(insecure.NewCredentials()))
-		if err != nil {
-			rep.Inconc("grpc client: " + err.Error())
-			kill()
-			return
-		}
-		defer conn.Close()
-		api := client.NewAPIClient(conn)
-		created := false
-		up := vfWait(60*time.Second, func() bool {
-			if exited() {
-				return true
-			}
-			ctx, cancel := context.WithTimeout(context.Background(), 3*time.Second)
-			defer cancel()
-			_, err := api.CreateStream(ctx, &client.CreateStreamRequest{Name: n.Stream, Subject: n.Subject, ReplicationFactor: 1})
-			if err == nil || strings.Contains(err.Error(), "already exists") {
-				created = true
-				return true
-			}
-			return false
-		})
-		if !up || !created {
-			rep.Inconc(fmt.Sprintf("%s: watchdog: binary did not serve gRPC / create a stream: %s", cs.Name, tail()))
-			kill()
-			return
-		}
+		// one lifetime of the binary: start under strace, use, SIGINT, parse
 		published := 0
-		for k := 0; k < 3; k++ {
-			ctx, cancel := context.WithTimeout(context.Background(), 10*time.Second)
-			_, err := api.Publish(ctx, &client.PublishRequest{Stream: n.Stream, Key: []byte(n.MsgKey), Value: []byte(n.MsgValue), AckPolicy: client.AckPolicy_LEADER})
-			cancel()
-			if err == nil {
-				published++
+		runLife := func(life int) ([]c19Connect, bool) {
+			trace := filepath.Join(cdir, fmt.Sprintf("trace%d.txt", life))
+			outf, _ := os.OpenFile(filepath.Join(cdir, "out.txt"), os.O_CREATE|os.O_WRONLY|os.O_APPEND, 0644)
+			defer outf.Close()
+			cmd := exec.Command(strace, append([]string{"-f", "-e", "trace=connect", "-o", trace, bin}, args...)...)
+			cmd.Env = c19CleanEnv(env...)
+			cmd.Dir = cdir
+			cmd.Stdout, cmd.Stderr = outf, outf
+			cmd.SysProcAttr = &syscall.SysProcAttr{Setpgid: true}
+			if err := cmd.Start(); err != nil {
+				rep.Inconc("cannot start strace: " + err.Error())
+				return nil, false
 			}
-		}
-		if cs.Expect == "some" {
-			// positive control: give the initial beacon its chance (logical
-			// condition on the observers; the watchdog only bounds the wait)
-			vfWait(15*time.Second, func() bool {
-				if proxy != nil && len(proxy.Lines()) > 0 {
+			waitCh := make(chan error, 1)
+			go func() { waitCh <- cmd.Wait() }()
+			kill := func() {
+				syscall.Kill(-cmd.Process.Pid, syscall.SIGKILL)
+				<-waitCh
+			}
+			exited := func() bool {
+				select {
+				case err := <-waitCh:
+					waitCh <- err
+					return true
+				default:
+					return false
+				}
+			}
+			tail := func() string {
+				b, _ := os.ReadFile(filepath.Join(cdir, "out.txt"))
+				return c19Tail(string(b), 500)
+			}
+			var tracee int
+			if !vfWait(20*time.Second, func() bool { tracee = c19ChildOf(cmd.Process.Pid, bin); return tracee != 0 || exited() }) || tracee == 0 {
+				rep.Inconc(cs.Name + ": traced process not found: " + tail())
+				kill()
+				return nil, false
+			}
+			// wait until the binary serves gRPC, then use it
+			addr := fmt.Sprintf("127.0.0.1:%d", port)
+			conn, err := grpc.NewClient(addr, grpc.WithTransportCredentials(insecure.NewCredentials()))
+			if err != nil {
+				rep.Inconc("grpc client: " + err.Error())
+				kill()
+				return nil, false
+			}
+			defer conn.Close()
+			api := client.NewAPIClient(conn)
+			created := false
+			up := vfWait(60*time.Second, func() bool {
+				if exited() {
 					return true
 				}
-				conns, _, _ := c19ParseTrace(trace, natsPort, proxyPort)
-				for _, c := range conns {
-					if c19IsAttempt(c.Class) {
-						return true
-					}
+				ctx, cancel := context.WithTimeout(context.Background(), 3*time.Second)
+				defer cancel()
+				_, err := api.CreateStream(ctx, &client.CreateStreamRequest{Name: n.Stream, Subject: n.Subject, ReplicationFactor: 1})
+				if err == nil || strings.Contains(err.Error(), "already exists") {
+					created = true
+					return true
 				}
 				return false
 			})
+			if !up || !created {
+				rep.Inconc(fmt.Sprintf("%s: watchdog: binary did not serve gRPC / create a stream: %s", cs.Name, tail()))
+				kill()
+				return nil, false
+			}
+			for k := 0; k < 3; k++ {
+				ctx, cancel := context.WithTimeout(context.Background(), 10*time.Second)
+				_, err := api.Publish(ctx, &client.PublishRequest{Stream: n.Stream, Key: []byte(n.MsgKey), Value: []byte(n.MsgValue), AckPolicy: client.AckPolicy_LEADER})
+				cancel()
+				if err == nil {
+					published++
+				}
+			}
+			if cs.Expect == "some" {
+				// positive control: give the initial beacon its chance (logical
+				// condition on the observers; the watchdog only bounds the wait)
+				vfWait(15*time.Second, func() bool {
+					if proxy != nil && len(proxy.Lines()) > 0 {
+						return true
+					}
+					conns, _, _ := c19ParseTrace(trace, natsPort, proxyPort)
+					for _, c := range conns {
+						if c19IsAttempt(c.Class) {
+							return true
+						}
+					}
+					return false
+				})
+			}
+			// graceful stop
+			syscall.Kill(tracee, syscall.SIGINT)
+			var werr error
+			select {
+			case werr = <-waitCh:
+			case <-time.After(60 * time.Second):
+				// ask the Go runtime of the binary for its goroutines (diagnosis
+				// only), keep the dump next to the unit's log
+				syscall.Kill(tracee, syscall.SIGQUIT)
+				select {
+				case <-waitCh:
+					waitCh <- nil
+				case <-time.After(10 * time.Second):
+				}
+				if b, err := os.ReadFile(filepath.Join(cdir, "out.txt")); err == nil {
+					os.WriteFile(filepath.Join(work, fmt.Sprintf("c19-stuck-%s-%d.txt", cs.Name, idx)), b, 0644)
+				}
+				rep.Inconc(cs.Name + ": watchdog: binary did not exit within 60 s after SIGINT (goroutine dump kept in the unit's work directory)")
+				kill()
+				return nil, false
+			}
+			conns, exited0, err := c19ParseTrace(trace, natsPort, proxyPort)
+			if err != nil {
+				rep.Inconc(cs.Name + ": trace unreadable: " + err.Error())
+				return nil, false
+			}
+			if !exited0 {
+				rep.Inconc(fmt.Sprintf("%s: binary did not exit with status 0 after SIGINT (wait: %v): %s", cs.Name, werr, tail()))
+				return nil, false
+			}
+			return conns, true
 		}
-		// graceful stop
-		syscall.Kill(tracee, syscall.SIGINT)
-		var werr error
-		select {
-		case werr = <-waitCh:
-		case <-time.After(60 * time.Second):
-			rep.Inconc(cs.Name + ": watchdog: binary did not exit after SIGINT")
-			kill()
-			return
+		lifetimes := 1
+		if kit.Thorough() || cs.Name == "off-config-file" || cs.Name == "off-env-with-config-file" {
+			lifetimes = 2 // a restart on the same data directory must not change the answer
 		}
-		conns, exited0, err := c19ParseTrace(trace, natsPort, proxyPort)
-		if err != nil {
-			rep.Inconc(cs.Name + ": trace unreadable: " + err.Error())
-			return
-		}
-		if !exited0 {
-			rep.Inconc(fmt.Sprintf("%s: binary did not exit with status 0 after SIGINT (wait: %v): %s", cs.Name, werr, tail()))
-			return
+		var conns []c19Connect
+		for life := 0; life < lifetimes; life++ {
+			c, ok := runLife(life)
+			if !ok {
+				return
+			}
+			conns = append(conns, c...)
+			rep.Count("binary_lifetimes", 1)
 		}
 		classes := map[string]int{}
 		var attempts []c19Connect
